@@ -22,7 +22,7 @@ func init() {
 			"testdrv time stamps carry one constant offset per session (Listen stamps the real clock, Sleep moves a virtual one): the monitor requires one offset in [-60 s, 0] consistent with every delivery; exact stamps are decided at the drivers.Reader level",
 			"F8..FF are all treated as real-time (delivered as one-byte messages)",
 		},
-		Require: []string{"runs_l1", "runs_l2", "elisions", "rt_inside_message", "rt_inside_sysex", "sysex_exact_buffer", "split_inside_message", "deliveries_checked", "generator_crosschecks", "sysex_sweep_lengths"},
+		Require: []string{"runs_l1", "runs_l2", "elisions", "rt_inside_message", "rt_inside_sysex", "sysex_exact_buffer", "split_inside_message", "deliveries_checked", "generator_crosschecks", "sysex_sweep_lengths", "sandwich_chunks", "reconfigured_sessions"},
 		Run:     runC04,
 	})
 }
@@ -302,6 +302,86 @@ func runC04(c *mon.Ctx) {
 			c.Count("sysex_exact_buffer", 1)
 		}
 		c.Enumerated(1)
+	})
+
+	// ---- a chunk that starts with one sysex and ends with another, with other messages in between
+	c.Each("sysex-sandwich", c.N(300, 20_000), func(i int64, r *mon.Rand) {
+		mk := func(n int) []byte {
+			sx := make([]byte, n)
+			sx[0] = 0xF0
+			for j := 1; j < n-1; j++ {
+				sx[j] = byte(j+n) & 0x7F
+			}
+			sx[n-1] = 0xF7
+			return sx
+		}
+		a, b := r.Range(2, 700), r.Range(2, 700)
+		if i%3 == 0 {
+			a, b = r.Pick(250, 300, 255, 256, 500), r.Pick(250, 300, 257, 511, 512)
+		}
+		msgs := [][]byte{mk(a)}
+		for k := r.Intn(4); k >= 0; k-- {
+			msgs = append(msgs, gen.LiveMsg(r, r.Intn(11), 1024))
+		}
+		msgs = append(msgs, mk(b))
+		w := gen.Serialize(r, msgs, gen.SerOpts{RunningStatus: true, Realtime: r.P(1, 2)})
+		cfg := liveCfg{sysex: true, clock: true, sense: true, buf: uint32(r.Pick(0, 0, 2048, 1024))}
+		k.check(w, nil, []int32{4}, cfg, i%4 == 0, fmt.Sprintf("sandwich: sysex(%d) ... sysex(%d) in one chunk", a, b))
+		c.Count("sandwich_chunks", 1)
+		c.DistinctBytes(w.Bytes)
+	})
+
+	// ---- the same port listened to twice with different configurations (state must not leak from the
+	// first configuration into the second): explicit small buffer then default, options off then on, ...
+	c.Each("reconfigure", c.N(300, 20_000), func(i int64, r *mon.Rand) {
+		l := newL2()
+		cfgs := []liveCfg{
+			{sysex: true, clock: true, sense: true, buf: uint32(r.Pick(4, 16, 64, 128, 500))},
+			{sysex: true, clock: true, sense: true, buf: 0},
+		}
+		if i%3 == 1 {
+			cfgs[0], cfgs[1] = cfgs[1], cfgs[0]
+		}
+		if i%3 == 2 {
+			cfgs = []liveCfg{{sysex: false, clock: false, sense: false, buf: uint32(r.Pick(0, 8))}, {sysex: true, clock: true, sense: true, buf: uint32(r.Pick(0, 300, 2000))}}
+		}
+		for si, cfg := range cfgs {
+			msgs := gen.LiveSequence(r, r.Range(1, 10), cfg.bufSize(), cfg.sysex)
+			if cfg.sysex {
+				// a sysex between the two buffer sizes
+				n := r.Range(2, cfg.bufSize())
+				sx := make([]byte, n)
+				sx[0], sx[n-1] = 0xF0, 0xF7
+				msgs = append(msgs, sx, []byte{0x90, 1, 1})
+			}
+			w := gen.Serialize(r, msgs, gen.SerOpts{RunningStatus: true})
+			// expected: the sent messages minus the classes disabled in this session
+			var want [][]byte
+			for _, d := range w.Deliveries {
+				switch {
+				case d[0] == 0xFE && !cfg.sense, d[0] == 0xF8 && !cfg.clock, d[0] == 0xF0 && !cfg.sysex:
+				default:
+					want = append(want, d)
+				}
+			}
+			in := map[string]any{"session": si, "configs": fmt.Sprint(cfgs), "bytes": mon.Hex(w.Bytes)}
+			var got []obs
+			var err error
+			if c.Guard("panic:listento", in, func() { got, err = l.run(cfg, [][]byte{w.Bytes}, []int32{1}) }) || err != nil {
+				return
+			}
+			c.Count("reconfigured_sessions", 1)
+			c.Eval(1)
+			ok := len(got) == len(want)
+			for j := 0; ok && j < len(got); j++ {
+				ok = bytes.Equal(got[j].msg, want[j])
+			}
+			if !ok {
+				c.Violation("l2-reconfigure", fmt.Sprintf("listening session %d on a port that was configured as %s before: %d messages expected, %d delivered", si, cfgs[0], len(want), len(got)), in, mon.HexList(want), obsList(got))
+				return
+			}
+		}
+		c.DistinctBytes([]byte(fmt.Sprint("reconf", i)))
 	})
 
 	c.Each("random", c.N(20_000, 3_000_000), func(i int64, r *mon.Rand) {
